@@ -239,8 +239,9 @@ class RecordingHostContext(HostContext):
             out = "output of %s\n" % " ".join(cmds[0])
         if self.emulate_grep:
             for argv in cmds[1:]:
-                if os.path.basename(argv[0]) == "grep" and len(argv) == 3 and argv[1] == "-F":
-                    pats = argv[2].split("\n")
+                if os.path.basename(argv[0]) == "grep" and argv[1:2] == ["-F"] and (
+                        len(argv) == 3 or (len(argv) == 4 and argv[2] == "-e")):
+                    pats = argv[-1].split("\n")
                     out = "".join(l for l in out.splitlines(True) if any(p in l for p in pats))
         return out
 
